@@ -519,6 +519,9 @@ def handle (line : String) : String × String :=
   | ["serdeh", hex] => handleSerde "serdeh" hex
   | ["serdes", hex] => handleSerde "serdes" hex
   | ["serdert", _] => ("same", "same")
+  | ["pairhex", design, _, _] =>
+    let o := Wellen.GhwSpec.specObserve design
+    (o ++ "#" ++ o, if o = "-" then "-" else o ++ "#" ++ o)
   | ["ghw", design, hex] =>
     match hexBytes? hex with
     | some bs => (Wellen.Ghw.load bs, Wellen.GhwSpec.spec design)
